@@ -26,13 +26,19 @@ SPEC = {
              "given keys (independent reference reading of the map); documented http-gun defaults of absent keys. TestMutations: one "
              "change (unknown / misspelt key inserted, or a present optional key renamed to a typo, at a sampled struct level; a "
              "kind-incompatible value for a sampled key, value class drawn first half of the time; a value violating the key's validate "
-             "tag; a required key removed; a bad, empty, non-string, foreign-kind or missing plugin type name) must be rejected with an "
+             "tag - the tag and boundary class are drawn first: min just below (min-1, min-1e-9) / far below, min-time 0 / just below "
+             "(999999ns) / negative, required zero value, endpoint with port 0 / 00 / -1, port 65536 / beyond 2^16, 2^32, 2^64, empty "
+             "port, non-numeric port (each with six hosts incl. empty and [::1]), no port at all, bad host; a required key removed; a bad, empty, non-string, foreign-kind or missing plugin type name) must be rejected with an "
              "error (not a panic) by DecodeAndValidate or by the first NewGun()/NewRPSSchedule() call. TestPlaceholders: a scalar field "
              "(value class drawn first; given or not, the literal is drawn by the field's generator; also elements of string lists) is "
              "replaced by ${env:V} / ${property:file#key} (whole value, or embedded prefix+var+suffix for strings, durations, sizes, "
              "levels) and must decode to the same configuration as the literal; unset variable / missing key / missing file / missing "
              "#key and a variable holding text that is no value of the field (non-numeric, negative for unsigned, validate-tag "
-             "violation) must be rejected with an error. TestDiscardOverflowDefault: generated YAML / JSON files with 1-3 pools, each "
+             "violation incl. the boundary values above) must be rejected with an error. In 3 of 4 unset-variable / missing-key cases "
+             "and 1 of 3 others a decoy is defined next to the named variable / key: a name differing only in letter case (all "
+             "upper, all lower, one letter flipped; environment names are case-sensitive on linux, property keys everywhere) or by "
+             "one appended / removed character; it holds the text the field accepts when the case must be rejected (a fallback "
+             "lookup would be accepted silently) and a foreign text when the named variable is defined (the exact name must win). TestDiscardOverflowDefault: generated YAML / JSON files with 1-3 pools, each "
              "with discard_overflow true / false / absent, read by the real CLI reader (cli.ReadConfigForVerif -> readConfig: viper "
              "from the OS file system, defaulting, decode): DiscardOverflow = true when absent, the given value otherwise. Each test "
              "first runs the fixed witness cases of the findings it made (plain regression cases once a finding is fixed). Depth: root "
@@ -44,10 +50,17 @@ SPEC = {
         "TestMutations/kind:unknown_key": 0.25, "TestMutations/kind:wrong_type": 0.15, "TestMutations/kind:constraint": 0.05,
         "TestMutations/kind:missing": 0.05, "TestMutations/kind:bad_type": 0.05, "TestMutations/op:rename": 0.01,
         "TestMutations/depth:0": 0.05, "TestMutations/depth:1": 0.15, "TestMutations/depth:2": 0.2, "TestMutations/depth:3": 0.01,
+        "TestMutations/violates:min/just_below": 0.005, "TestMutations/violates:min-time/just_below": 0.005,
+        "TestMutations/violates:min-time/zero": 0.005, "TestMutations/violates:required/zero": 0.005,
+        "TestMutations/violates:endpoint/port_low": 0.002, "TestMutations/violates:endpoint/port_high": 0.002,
+        "TestMutations/violates:endpoint/port_empty": 0.002, "TestMutations/violates:endpoint/port_non_numeric": 0.002,
+        "TestMutations/violates:endpoint/no_port": 0.002,
         "TestMutations/rejected_by:NewRPSSchedule": 0.03, "TestMutations/rejected_by:NewGun": 0.005,
         "TestPlaceholders/non_string_field": 0.4, "TestPlaceholders/src:env": 0.3, "TestPlaceholders/src:property": 0.3,
         "TestPlaceholders/missing:unset_env": 0.04, "TestPlaceholders/missing:missing_key": 0.02,
-        "TestPlaceholders/missing:missing_file": 0.02, "TestPlaceholders/mode:embedded": 0.03, "TestPlaceholders/mode:invalid_text": 0.03,
+        "TestPlaceholders/missing:missing_file": 0.02, "TestPlaceholders/missing_with_decoy:case_variant:env": 0.01,
+        "TestPlaceholders/missing_with_decoy:case_variant:property": 0.008, "TestPlaceholders/missing_with_decoy:affixed:env": 0.008,
+        "TestPlaceholders/defined_with_decoy:case_variant:env": 0.02, "TestPlaceholders/defined_with_decoy:case_variant:property": 0.02, "TestPlaceholders/mode:embedded": 0.03, "TestPlaceholders/mode:invalid_text": 0.03,
         "TestPlaceholders/class:int": 0.05, "TestPlaceholders/class:float": 0.03, "TestPlaceholders/class:bool": 0.05,
         "TestPlaceholders/class:duration": 0.05, "TestPlaceholders/class:string": 0.1, "TestPlaceholders/depth:2": 0.1,
         "TestDiscardOverflowDefault/some_pool_without_key": 0.3, "TestDiscardOverflowDefault/discard_overflow:given_true": 0.1,
@@ -66,7 +79,8 @@ SPEC = {
                  "accept them, every section's decoded config (observed through plugin.New on the registered default) must equal the "
                  "default overlaid with the given keys, and each single mutation (unknown key at any struct level, wrongly typed value, "
                  "validate-tag violation, missing required key, bad type name) must be rejected with an error. Literal and "
-                 "${env}/${property} variants must decode identically; unresolved placeholders and placeholders resolving to text that "
+                 "${env}/${property} variants must decode identically; unresolved placeholders (also when a variable / key of a "
+                 "name differing only in letter case or by one character is defined) and placeholders resolving to text that "
                  "is no value of the field must be rejected. The CLI reader must decode discard_overflow as true exactly when the key is "
                  "absent from a pool of the file."),
         "note": ("Float-for-int (truncated by mapstructure by design), numbers or digit-only text for durations / sizes / levels (taken "
